@@ -181,7 +181,7 @@ _DESC = {}
 
 
 def cases(tier, seed):
-    shapes = [(m, n) for m in range(1, 6) for n in range(1, 6)] + [(8, 3), (3, 8)] + ([(20, 20), (12, 7), (7, 12)] if tier == "thorough" else [])
+    shapes = [(m, n) for m in range(1, 6) for n in range(1, 6)] + [(8, 3), (3, 8)] + ([(20, 20), (12, 7), (7, 12), (6, 6), (9, 2), (2, 9), (30, 5), (5, 30), (16, 15)] if tier == "thorough" else [])
     specs = [["dense", m, n, c] for (m, n) in shapes for c in (False, True)]
     struct = [["Identity", 3, False], ["Identity", 2, True], ["Diagonal", 4, False], ["Diagonal", 3, True]]
     out = []
@@ -202,7 +202,7 @@ def case_signature(case):
 
 def describe(tier, seed):
     return {
-        "bound": "m x n in {1..5}^2 plus 8x3, 3x8" + (", 20x20, 12x7, 7x12" if tier == "thorough" else "") + ", real and complex, prescribed singular "
+        "bound": "m x n in {1..5}^2 plus 8x3, 3x8" + (", 6x6, 9x2, 2x9, 12x7, 7x12, 16x15, 20x20, 30x5, 5x30" if tier == "thorough" else "") + ", real and complex, prescribed singular "
                  "values; Identity, Diagonal (negative / complex entries), ScalarMul, Permutation; svd: ALL 1<=k<=min(m,n) x {LM, SM} x {omitted, Auto, "
                  "DenseSVD, Lanczos}; pinv: {omitted, Auto, LSTSQ, CG} x right-hand sides {1-D, 2 columns, complex, inconsistent (tall)}",
         "alphabet": _DESC,
